@@ -239,6 +239,10 @@ class C07:
                 else:
                     progs.append(S if i % 2 else others[(i - 1) % len(others)])
             ctext = "mode concurrent\nsimseed %d\n" % case["simseed"]
+            if case.get("simtape") is not None:
+                ctext += "simtape " + ",".join(str(x) for x in case["simtape"]) + "\n"     # explicit (minimised) interleaving
+            if case.get("emit_simtape"):
+                ctext += "emit_simtape\n"
             for i, p in enumerate(progs):
                 # (a GlobalContext is a per-thread selection: the concurrent executors run without one)
                 q = dict(p, options={k: x for k, x in p.get("options", {}).items() if k != "gctx"})
@@ -252,6 +256,8 @@ class C07:
                 phase = None
                 parts = {}
                 for e in r.events:
+                    if e["k"] == "tape":
+                        self._last_tape = [int(x) for x in e["v"].split(",")] if e["v"] else []
                     if e["k"] == "phase":
                         phase = e["p"]
                     elif phase and "x" in e:
@@ -282,6 +288,28 @@ class C07:
         n_ev = sum(1 for e in ref.events if e["k"] == "ev")
         return Outcome(violation=dict(clause=v[0], detail=v[1]) if v else None, stats=stats, digest=ref.digest, nontrivial=n_ev >= 3, sample=sample,
                        shape=runner.h64(dataflow.shape_key(S), case["repeat"], case["nconc"], ihash))
+
+    def shrink_schedule(self, case, clause):
+        """concurrency clauses only: record the seeded interleaving of the concurrent section as a tape, pin it, minimise it
+        (threads.shrink_tape); the replay then carries the explicit interleaving instead of depending on simseed."""
+        if case.get("kind") == "text" or clause not in ("concurrency_dependence", "crash_when_concurrent") or case.get("simtape") is not None:
+            return case, None
+        import threads as th
+        c0 = dict(case, only="concurrent")
+        self._last_tape = None
+        out = self.run(dict(c0, emit_simtape=1))
+        tape = self._last_tape
+        if tape is None:
+            return case, None
+
+        def run_same(t):
+            o = self.run(dict(c0, simtape=list(t)))
+            return bool(o.violation) and o.violation["clause"] == clause and not o.harness_error
+
+        if not run_same(tape):
+            return case, dict(pinned=False, decisions=len(tape))
+        small, runs = th.shrink_tape(run_same, tape, max_runs=150)
+        return dict(c0, simtape=small), dict(pinned=True, decisions_recorded=len(tape), decisions_kept=len(small), non_default=sum(1 for x in small if x), shrink_runs=runs)
 
     def shrink(self, case):
         if case.get("kind") == "text":
